@@ -26,7 +26,7 @@ inductive ThreadLabel where
   deriving Repr, DecidableEq, Inhabited
 
 def ThreadLabel.print : ThreadLabel → Str
-  | .none => [] | .pc => asc "PC: " | .pc2 => asc "PC:  " | .creator => asc "creator: "
+  | .none => [] | .pc => asc "PC:" | .pc2 => asc "PC: " | .creator => asc "creator:"
 
 structure ThreadLine where
   blanks : Nat            -- blank lines before this line
@@ -36,13 +36,8 @@ structure ThreadLine where
   sym : Option Str        -- `: <symbol>` after the addresses
   deriving Repr, DecidableEq, Inhabited
 
-def joinSp : List Str → Str
-  | [] => []
-  | [a] => a
-  | a :: r => a ++ 32 :: joinSp r
-
 def ThreadLine.print (w : Nat) (l : ThreadLine) : Str :=
-  sp l.indent ++ l.label.print ++ joinSp (l.addrs.map (hex0x w)) ++
+  sp l.indent ++ l.label.print ++ printAddrs w l.addrs ++
     (match l.sym with | none => [] | some t => asc ": " ++ t)
 
 /-- symbol text: printable, without `0` (cannot start a hex literal) and without `v` (cannot
@@ -108,8 +103,17 @@ def ThreadBody.addrs : ThreadBody → List Nat
   | .same _ _ => []
   | .stack ls => ls.flatMap (·.addrs)
 
+/-- threadzStartRE `--- threadz \d+ ---` (unanchored) -/
+def matchThreadzAt (s : Str) : Option Unit := do
+  let s ← stripPrefix (asc "--- threadz ") s
+  let (_, s) ← reDigits s
+  let _ ← stripPrefix (asc " ---") s
+  pure ()
+
 def ThreadRec.wf (r : ThreadRec) : Bool :=
   r.name.all isPrint &&
+  -- the header line must not itself read as a memory-map sentinel or a `--- threadz N ---` line
+  !isMemoryMapSentinel r.headerLine && (searchRe matchThreadzAt r.headerLine).isNone &&
   (match r.body with
    | .same _ _ => true
    | .stack ls => ls.all (fun l => l.addrs.all (· < two64) && l.sym.all symOK) && ls.flatMap (·.addrs) != [])
@@ -156,13 +160,6 @@ def expectedThread (d : ThreadDoc) : Profile :=
   finish threadHeader ss (ss.map cleanupDup) d.ending.mappings
 
 /-! ### parser -/
-/-- threadzStartRE `--- threadz \d+ ---` (unanchored) -/
-def matchThreadzAt (s : Str) : Option Unit := do
-  let s ← stripPrefix (asc "--- threadz ") s
-  let (_, s) ← reDigits s
-  let _ ← stripPrefix (asc " ---") s
-  pure ()
-
 /-- `/(\d+)\) stack: ---` -/
 def matchThreadTailAt (s : Str) : Option Unit := do
   let s ← stripPrefix [47] s
